@@ -3,6 +3,7 @@ use serde_json::Value;
 
 pub mod c02;
 pub mod c03;
+pub mod c04;
 pub mod c20;
 
 pub struct Check {
@@ -16,6 +17,7 @@ pub fn registry() -> Vec<Check> {
     vec![
         Check { id: "C02", level: "exploration", run: c02::run, replay: c02::replay },
         Check { id: "C03", level: "exploration", run: c03::run, replay: c03::replay },
+        Check { id: "C04", level: "exploration", run: c04::run, replay: c04::replay },
         Check { id: "C20", level: "exploration", run: c20::run, replay: c20::replay },
     ]
 }
